@@ -129,16 +129,23 @@ impl<'a> LogServer<'a> {
     }
     #[instrument]
     async fn process(socket: tokio::net::TcpStream) -> Result<(), ServerError> {
-        let br = tokio::io::BufReader::new(socket);
-        let mut lines = br.lines();
+        // Relay the bytes as they are, one line at a time; decoding them as text lines
+        // would strip carriage returns (and reject output that is not valid UTF-8).
+        let mut br = tokio::io::BufReader::new(socket);
         let mut stdout = tokio::io::stdout();
-        while let Some(line) = lines.next_line().await.map_err(ServerError::LogClient)? {
+        let mut line = Vec::new();
+        while br
+            .read_until(b'\n', &mut line)
+            .await
+            .map_err(ServerError::LogClient)?
+            > 0
+        {
             stdout
-                .write_all(line.as_bytes())
+                .write_all(&line)
                 .await
                 .map_err(ServerError::LogClient)?;
-            _ = stdout.write(b"\n").await.map_err(ServerError::LogClient)?;
             stdout.flush().await.map_err(ServerError::LogClient)?;
+            line.clear();
         }
         Ok(())
     }
